@@ -413,6 +413,11 @@ func (w *c07RaceWorker) opZoo(h *gorm.DB) string {
 	if w.nohold && (k == 27 || k == 29) { // environment rule (c07_derive.go): no connection kept over several statements
 		k = 16
 	}
+	if w.inTx && k == 29 {
+		// DB.Connection inside a transaction asks the pool for ANOTHER connection (gorm finds the *sql.DB behind the *sql.Tx):
+		// on a pool of one that is the application's own deadlock, not a concurrency matter
+		k = 10
+	}
 	if w.only != "" { // focused probe: only these operation indexes
 		var ks []int
 		for _, f := range strings.Split(w.only, ",") {
